@@ -18,7 +18,11 @@ namespace Gen8
 theorem update_height_eq (d : Rec α β) (m : TreeImage α β) (i : Nat) :
     update_height d m i = Imp.updateHeight d m i := by
   simp only [update_height, Imp.updateHeight, Id.run, pure, bind]
-  split <;> rfl
+  first
+  | done
+  | (split <;> rfl)
+  | (repeat' split
+     all_goals (first | rfl | simp_all | omega))
 
 theorem update_child_eq (d : Rec α β) (m : TreeImage α β) (p : Nat) (b : Bool) (ch : Nat) :
     update_child d m p b ch = Imp.updateChild d m p b ch := by
@@ -26,7 +30,13 @@ theorem update_child_eq (d : Rec α β) (m : TreeImage α β) (p : Nat) (b : Boo
   cases b <;> rfl
 
 theorem balance_factor_eq (d : Rec α β) (m : TreeImage α β) (l r : Nat) :
-    balance_factor d m l r = Imp.balanceFactor d m l r := rfl
+    balance_factor d m l r = Imp.balanceFactor d m l r := by
+  first
+  | rfl
+  | -- the computation split over extracted helpers (`@[simp]`, emitted by the translator): unfold and compare by cases
+    (simp [balance_factor, Imp.balanceFactor, Id.run]
+     repeat' split
+     all_goals (first | rfl | simp_all | omega))
 
 theorem left_rotate_eq (d : Rec α β) (m : TreeImage α β) (i : Nat) :
     left_rotate d m i = Imp.leftRotate d m i := by
